@@ -270,6 +270,15 @@ static std::string do_U(const std::vector<std::string>& f, double den) {
   put("ipAC", A.compute_scalar_product(C)); put("ipBC", B.compute_scalar_product(C)); put("ipCC", C.compute_scalar_product(C));
   put("ipSC", (A + B).compute_scalar_product(C)); put("ipCS", C.compute_scalar_product(A + B));
   put("ip2AB", (A * 2.0).compute_scalar_product(B));
+  // the average, built by compute_average into a fresh object, must behave like (A + B) / 2 in every later use
+  {
+    Persistence_landscape_on_grid av;
+    std::vector<Persistence_landscape_on_grid*> ptrs{&A, &B};
+    av.compute_average(ptrs);
+    put("ipVC", av.compute_scalar_product(C)); put("ipCV", C.compute_scalar_product(av));
+    put("intA", A.compute_integral_of_landscape()); put("intB", B.compute_integral_of_landscape()); put("intV", av.compute_integral_of_landscape());
+    put("szA", (double)A.size()); put("szB", (double)B.size()); put("szV", (double)av.size());
+  }
   return s;
 }
 
